@@ -129,7 +129,9 @@ class ExpressionToken(RecursiveCompositeBaseToken):
                    [OneOperandArithmeticOperatorToken, CLS],
                    [OneLeftOperandExpressionToken, OperatorToken, CLS],
                    [OneLeftOperandExpressionToken],
+                   [BracketStartToken, CLS, BracketFinishToken, PercentOperatorToken, OperatorToken, CLS],
                    [BracketStartToken, CLS, BracketFinishToken, OperatorToken, CLS],
+                   [BracketStartToken, CLS, BracketFinishToken, PercentOperatorToken],
                    [BracketStartToken, CLS, BracketFinishToken], [OperandToken]]
 
     @property
